@@ -525,7 +525,7 @@ def run_shard(ctx):
     logging.disable(logging.CRITICAL)
     builds, info = g4.parser_builds(ctx.prep)
     ctx.extra.update({"parser_builds": [b[0] for b in builds], **info})
-    for k in range(ctx.n(2000, 100000)):
+    for k in range(ctx.n(6000, 100000)):
         if ctx.out_of_time():
             break
         ctx.guarded(one, ctx, builds, ctx.rng, k, timeout=60)
